@@ -1,5 +1,5 @@
 //! C03 - PWB chunks are integrity-checked by both CRC-32C words.
-use super::{diff_outcome, mix};
+use super::{diff_both, diff_outcome, mix};
 use crate::engine::*;
 use crate::gen;
 use crate::PropDef;
@@ -12,7 +12,7 @@ use serde_json::Value;
 pub fn def() -> PropDef {
     PropDef {
         id: "C03",
-        rule: "inputs: valid chunks (any known device, chip, flags, header fields; payload 1..4096 bytes in quick, up to 65535 in thorough, with zeros and trailing zeros; plus, in both tiers, one chunk of each of 44 payload lengths around 2^k and at the top of the 16-bit length field, 65519..=65535) with 0-3 one-rule mutations and byte edits -> reference validator (own bitwise CRC-32C) must agree, accepted chunks must re-encode to the input; plus for every accepted chunk: every single-bit flip (all positions up to 4 KiB chunks, all header/CRC/tail positions + 4096 sampled beyond), sampled 2- and 3-bit flips biased to the header/payload/CRC borders, and a burst (first and last bit set, random interior, length 2..=32, wire bit order: bytes ascending, LSB first) at every bit offset -> each mutant must be rejected; non-trivial = a mutant of an accepted chunk, distinct by (size class, region of first flipped bit, fault class, chunk hash); diff cases: accepted or rejected with <= 1 mutation",
+        rule: "inputs: valid chunks (any known device, chip, flags, header fields; payload 1..4096 bytes in quick, up to 65535 in thorough, with zeros and trailing zeros; plus, in both tiers, one chunk of each of 44 payload lengths around 2^k and at the top of the 16-bit length field, 65519..=65535) with 0-3 one-rule mutations and byte edits, and 63 oversize slices (payload 0..65535 bytes followed by 16383..2^20 zero words with the CRC sealed over all of it) -> reference validator (own bitwise CRC-32C) must agree, accepted chunks must re-encode to the input; plus for every accepted chunk: every single-bit flip (all positions up to 4 KiB chunks, all header/CRC/tail positions + 4096 sampled beyond), sampled 2- and 3-bit flips biased to the header/payload/CRC borders, and a burst (first and last bit set, random interior, length 2..=32, wire bit order: bytes ascending, LSB first) at every bit offset -> each mutant must be rejected; non-trivial = a mutant of an accepted chunk, distinct by (size class, region of first flipped bit, fault class, chunk hash); diff cases: accepted or rejected with <= 1 mutation",
         assumptions: &[
             "burst bit order is the CRC's transmission order (LSB of each byte first); in MSB-first numbering a 32-bit window is not a CRC burst and no guarantee exists",
             "CRC-32C has Hamming distance >= 4 at these lengths and detects every burst of <= 32 bits, so one accepted mutant is a genuine violation",
@@ -25,7 +25,7 @@ pub fn def() -> PropDef {
 fn diff_case(c: &gen::ChunkCase, ev: &mut Ev) -> Outcome {
     ev.eval();
     let b = c.bytes();
-    let label = diff_outcome(detdiff::chunk(&b), ev, "chunk")?;
+    let label = diff_both(detdiff::chunk, &b, 3, ev, "chunk")?;
     if label == "ok" || c.muts.len() + c.edits.len() <= 1 {
         ev.nontrivial(fingerprint(&b));
     }
@@ -208,9 +208,43 @@ fn size_class_case(i: u64, seed: u64, ev: &mut Ev) -> Outcome {
     fault_case(&FaultCase { chunk, fault_seed: mix(seed, i + 4) }, ev)
 }
 
+/// Slices far beyond the largest chunk: a well-formed chunk followed by a
+/// long run of zero words (a power of two of words or bytes, and neighbours),
+/// with the payload CRC sealed over all of it. A length test done in 16 or 32
+/// bits, in words or in bytes, sees some of these as an ordinary chunk.
+const OVERSIZE_PAYLOADS: [usize; 7] = [0, 1, 4, 5, 100, 1400, 65_535];
+const OVERSIZE_EXTRA_WORDS: [usize; 9] = [16_383, 16_384, 32_768, 65_535, 65_536, 65_537, 131_072, 262_144, 1 << 20];
+
+fn oversize_case(i: u64, seed: u64, ev: &mut Ev) -> Outcome {
+    ev.eval();
+    let n = OVERSIZE_PAYLOADS[i as usize % OVERSIZE_PAYLOADS.len()];
+    let extra = OVERSIZE_EXTRA_WORDS[(i as usize / OVERSIZE_PAYLOADS.len()) % OVERSIZE_EXTRA_WORDS.len()];
+    let payload: Vec<u8> = (0..n as u64).map(|j| (mix(seed ^ i, j / 8) >> (8 * (j % 8))) as u8 | 1).collect();
+    let chunk = ChunkModel {
+        device_id: oracles::boards::PADWING_BOARDS[(mix(seed, i) % 71) as usize].2,
+        packet_seq: mix(seed, i + 1) as u32,
+        channel_seq: mix(seed, i + 2) as u16,
+        channel_id: (i % 4) as u8,
+        flags: (i % 2) as u8,
+        chunk_id: mix(seed, i + 3) as u16,
+        payload,
+        length_field: None,
+        padding: Some(vec![0; (4 - n % 4) % 4 + 4 * extra]),
+        header_crc_xor: 0,
+        payload_crc_xor: 0,
+    };
+    let b = chunk.encode();
+    ev.label(&format!("oversize:{} extra zero words", extra));
+    diff_outcome(detdiff::chunk(&b), ev, "oversize")?;
+    ev.nontrivial(fingerprint(&(n, extra)));
+    ev.sample(|| format!("payload {n} bytes + {extra} zero words = slice of {} bytes", b.len()));
+    Ok(())
+}
+
 fn run(r: &Run) {
     let t = r.tier;
     let seed = r.seed;
+    r.enumerate("oversize_slices", (OVERSIZE_PAYLOADS.len() * OVERSIZE_EXTRA_WORDS.len()) as u64, move |i, ev| oversize_case(i, seed, ev));
     r.enumerate("size_classes", SIZE_CLASSES.len() as u64 * t.pick(1, 8), move |i, ev| size_class_case(i, seed, ev));
     r.prop("chunk_diff", t.pick(150_000, 20_000_000), gen::chunk_case, diff_case);
     r.prop("chunk_faults", t.pick(1_200, 120_000), move || fault_cases(t), fault_case);
@@ -220,6 +254,7 @@ fn replay(_r: &Run, check: &str, case: &Value) -> Option<Outcome> {
     Some(match check {
         "chunk_diff" => replay_case(case, diff_case),
         "chunk_faults" => replay_case(case, fault_case),
+        "oversize_slices" => oversize_case(case["index"].as_u64().unwrap_or(0), _r.seed, &mut Ev::default()),
         "size_classes" => size_class_case(case["index"].as_u64().unwrap_or(0), _r.seed, &mut Ev::default()),
         "chunk_bytes" => replay_case(case, |b: &Vec<u8>, ev| diff_outcome(detdiff::chunk(b), ev, "chunk").map(|_| ())),
         _ => return None,
